@@ -143,6 +143,10 @@ class EnvProblem(Problem):
             # a Problem with constraints dispatches on the holder's type; this solver only ever asks for the objective,
             # so a holder re-typed on the way here gets the constraint's value and the oracles see the difference
             v = 7.25
+        if self.fresh_holder == "zerod":
+            # the value stored the way numpy code often leaves it: a 0-d array (np.squeeze / np.asarray of a result)
+            functionValue.value = np.array(v, dtype=np.double)
+            return functionValue
         if self.fresh_holder:
             from iOpt.trial import FunctionValue
             out = FunctionValue(functionValue.type, functionValue.functionID)
